@@ -45,6 +45,7 @@ type Engine struct {
 	unknownMsg map[string]int
 	openFindings map[string]bool
 	replayModel []modelInput
+	params map[string]int64
 	funcByName map[string]*ssa.Function
 }
 
@@ -166,6 +167,7 @@ type harnessRun struct {
 	cond    *sync.Cond
 	results HarnessResult
 	samples []pathResult
+	violPerID map[string]int
 	start   time.Time
 	stop    bool
 }
@@ -373,7 +375,11 @@ func (h *harnessRun) record(r pathResult) {
 		R.Stubs[k] += v
 	}
 	for _, v := range r.Viols {
-		if len(R.Violations) < 50 {
+		if h.violPerID == nil {
+			h.violPerID = map[string]int{}
+		}
+		h.violPerID[v.AssertID]++
+		if h.violPerID[v.AssertID] <= 3 && len(R.Violations) < 200 {
 			R.Violations = append(R.Violations, v)
 		}
 	}
